@@ -253,7 +253,7 @@ def evaluate(case):
             return core.R(False, 'eof', 'intel-eof/' + sg, 'last line :%s, documented :%s for -i %d on %s' % (info['eof'], eofs[o_i], o_i, d))
         if exp_entry is not None and eff != 'Intel' and entry != exp_entry:
             return core.R(False, 'entry', 'entry/%s/%s' % (eff, 'from-file' if o_e is None else '-e'), 'entry %s, model %x on %s' % (entry, exp_entry, d))
-        if exp_entry is not None and eff == 'Intel' and entry != (exp_entry & 0xffff):
+        if exp_entry is not None and eff == 'Intel' and o_i == 0 and entry != (exp_entry & 0xffff):
             return core.R(False, 'entry', 'entry/Intel', 'entry %s, model %x on %s' % (entry, exp_entry & 0xffff, d))
     elif eff == 'C':
         if exp_entry is not None and entry != exp_entry:
